@@ -22,6 +22,7 @@ type AskRec struct {
 	BufLen   int  // size of the asker's response buffer
 
 	Call, Ret int
+	CallAt    time.Duration
 	Returned  bool
 	Err       error
 	N         int
@@ -179,6 +180,7 @@ func (w *World) AskOnce(ctx context.Context, ep Endpoint, to, ch, reqLen, mtu in
 	w.opBegin()
 	zsimrt.Yield("harness/before-ask")
 	rec.Call = w.step()
+	rec.CallAt = w.Sim.Now()
 	n, err := ep.Ask(ctx, buf, to, vec)
 	rec.Ret, rec.Returned, rec.N, rec.Err = w.step(), true, n, err
 	w.opEnd()
